@@ -136,21 +136,38 @@ def _is_parts_append(n: ast.AST) -> bool:
         and isinstance(n.func.value, ast.Name) and n.func.value.id == "parts" and len(n.args) == 1
 
 
-def _whole_args(e: ast.AST, stmts: list, depth: int = 0) -> bool:
+_USE_LINE = [10**9]
+
+
+_CLOSURES: dict = {}
+
+
+def _whole_args(e: ast.AST, stmts: list, depth: int = 0, root: str = "args", line=None) -> bool:
     """e denotes all of `args` in order: `args`, or a name bound to
-    tuple(f(x) for x in args) / list comprehension over the whole of args"""
+    tuple(f(x) for x in args) / list comprehension over the whole of args, possibly
+    computed by a local helper closure that maps its whole parameter"""
+    line = _USE_LINE[0] if line is None else line
     if isinstance(e, ast.Name):
-        if e.id == "args":
+        if e.id == root:
             return True
-        v = X.resolve_name(stmts, e.id)
-        return v is not None and depth < 4 and _whole_args(v, stmts, depth + 1)
+        v = X.resolve_name(stmts, e.id, line)
+        return v is not None and depth < 6 and _whole_args(v, stmts, depth + 1, root, v.lineno)
     if isinstance(e, ast.Call) and isinstance(e.func, ast.Name) and e.func.id in ("tuple", "list") and len(e.args) == 1:
-        return _whole_args(e.args[0], stmts, depth + 1)
+        return _whole_args(e.args[0], stmts, depth + 1, root, line)
+    if isinstance(e, ast.Call) and isinstance(e.func, ast.Name) and e.func.id in _CLOSURES and len(e.args) == 1 and not e.keywords \
+            and depth < 6:
+        cl = _CLOSURES[e.func.id]
+        params = [a.arg for a in cl.args.args]
+        rets = [r for r in walk_no_nested(cl) if isinstance(r, ast.Return)]
+        if len(params) == 1 and len(rets) == 1 and rets[0].value is not None:
+            return _whole_args(e.args[0], stmts, depth + 1, root, line) and \
+                _whole_args(rets[0].value, cl.body, depth + 1, params[0], rets[0].lineno)
+        return False
     if isinstance(e, (ast.GeneratorExp, ast.ListComp)) and len(e.generators) == 1:
         g = e.generators[0]
         if g.ifs:
             return False
-        if not (isinstance(g.iter, ast.Name) and g.iter.id == "args"):
+        if not (isinstance(g.iter, ast.Name) and g.iter.id == root):
             return False
         # element must be a function of the loop variable only (expand_recurse(x, ...))
         tv = unparse(g.target)
@@ -164,7 +181,7 @@ def _classify(e: ast.AST, stmts: list, depth: int = 0) -> str:
             return "expansion"
         if e.id == "ch":
             return "cookie"
-        v = X.resolve_name(stmts, e.id)
+        v = X.resolve_name(stmts, e.id, _USE_LINE[0])
         if v is not None:
             return _classify(v, stmts, depth + 1)
         return "unknown:" + e.id
@@ -200,6 +217,8 @@ def rule_r2(ctx) -> RuleResult:
     rr = RuleResult("C13.R2", "every exit of the template branch is an expansion, an error element or a whole re-emission", min_instances=9)
     fnr = ctx.fn(X.RECURSE)
     lp = X.main_loop(fnr)
+    _CLOSURES.clear()
+    _CLOSURES.update({n.name: n for n in fnr.body if isinstance(n, ast.FunctionDef)})
     tb = [lp] + [s for s in fnr.body if s.lineno > lp.lineno]
     allowed = {"expansion", "re-emission", "error element", "parser function result", "override function",
                "text between cookies", "cookie"}
@@ -212,6 +231,7 @@ def rule_r2(ctx) -> RuleResult:
         raise AnalysisError("expand_recurse: only {} parts.append sites (20 confirmed by hand)".format(len(appends)))
     for a in appends:
         before = [s for s in lp.body if s.lineno <= a.lineno]
+        _USE_LINE[0] = a.lineno
         kind = _classify(a.args[0], before)
         label = "parts.append({})".format(unparse(a.args[0])[:60])
         if kind in allowed:
@@ -438,5 +458,25 @@ def rule_r4(ctx) -> RuleResult:
     return rr
 
 
+def rule_r5(ctx) -> RuleResult:
+    """the non-expanding exits leave the expansion path balanced (shared with C16.R1)"""
+    from . import c16
+
+    r = c16.rule_r1(ctx)
+    rr = RuleResult("C13.R5", "re-emitting exits leave the expansion path balanced (shared with C16.R1)", min_instances=5)
+    scope = ("core.Wtp.expand.expand_recurse",)
+    for f in r.findings:
+        if f.function.startswith(scope):
+            rr.bad(Finding("C13.R5", f.file, f.function, f.construct,
+                           f.message + "; after ~100 such re-emitted calls every later call on the page is replaced by a 'too deep recursion' error",
+                           f.line))
+    keep = {c for c in r.cases if c[0].startswith(scope)}
+    rr.cases = keep
+    rr.obligations = len(keep)
+    rr.discharged = len(keep) - len(rr.findings)
+    rr.samples = [s_ for s_ in r.samples if str(s_.get("fn", "")).startswith(scope)]
+    return rr
+
+
 def run(ctx) -> list:
-    return [rule_r1(ctx), rule_r2(ctx), rule_r3(ctx), rule_r4(ctx)]
+    return [rule_r1(ctx), rule_r2(ctx), rule_r3(ctx), rule_r4(ctx), rule_r5(ctx)]
